@@ -741,6 +741,7 @@ func (h *httpServerHandler) SendRequest(ctx context.Context, sessionID string, r
 	h.getSSEConnectionsLock.RLock()
 	conn, ok := h.getSSEConnections[sessionID]
 	h.getSSEConnectionsLock.RUnlock()
+	verifEvent("push.lookup", sessionID, ok)
 
 	if !ok {
 		return nil, fmt.Errorf("no GET SSE connection found for session: %s", sessionID)
